@@ -192,6 +192,8 @@ pub enum Mutation {
     Shifted { other: usize, k: usize },
     /// consistent-but-unbacked: count field(s) set to 2^k, declared lengths recomputed, no data behind
     Ladder { k: u32, which: u8 },
+    /// two lying length fields in two different files: the index header's and the main header's
+    Cross { shx_len: i32, shp_len: i32 },
 }
 
 #[derive(Clone, Debug)]
@@ -348,6 +350,16 @@ pub fn inputs(tier: Tier, bs: &[Base]) -> Vec<Input> {
         for k in 0..=kmax {
             v.push(Input { base: bi, on_shp: true, m: Mutation::Ladder { k, which: 10 } });
         }
+        // runs of 2^k zeroed index entries (11)
+        for k in 0..=tier.pick(14, 16) {
+            v.push(Input { base: bi, on_shp: false, m: Mutation::Ladder { k, which: 11 } });
+        }
+        // two lying length fields in two different files
+        for a in [1i32 << 20, 1 << 24, 1 << 28, 1 << 30, i32::MAX] {
+            for c in [1i32 << 20, 1 << 24, 1 << 28, 1 << 30, i32::MAX] {
+                v.push(Input { base: bi, on_shp: true, m: Mutation::Cross { shx_len: a, shp_len: c } });
+            }
+        }
         // partially backed ladders: the parts array (4) resp. 2^k + 1 index entries (6) are really there
         for k in 8..=tier.pick(13, 15) {
             for which in [4u8, 5, 6] {
@@ -364,6 +376,13 @@ pub fn materialise(bs: &[Base], inp: &Input) -> Option<(Vec<u8>, Vec<u8>)> {
     let b = &bs[inp.base];
     let mut shp = b.shp.clone();
     let mut shx = b.shx.clone();
+    if let Mutation::Cross { shx_len, shp_len } = &inp.m {
+        if shp.len() >= 28 && shx.len() >= 28 {
+            shx[24..28].copy_from_slice(&shx_len.to_be_bytes());
+            shp[24..28].copy_from_slice(&shp_len.to_be_bytes());
+        }
+        return Some((shp, shx));
+    }
     {
         let (bytes, fields) = if inp.on_shp { (&mut shp, &b.shp_fields) } else { (&mut shx, &b.shx_fields) };
         match &inp.m {
@@ -393,9 +412,15 @@ pub fn materialise(bs: &[Base], inp: &Input) -> Option<(Vec<u8>, Vec<u8>)> {
                 bytes.extend(std::iter::repeat(0u8).take(*k));
                 bytes.extend(&bs[*other].shp[4..]);
             }
+            Mutation::Cross { .. } => unreachable!(),
             Mutation::Ladder { k, which } => {
                 let n: i64 = 1i64 << k;
-                if *which == 6 {
+                if *which == 11 {
+                    // 2^k index entries that are all zero (offset 0, length 0), the header consistent with them
+                    bytes.truncate(100);
+                    bytes[24..28].copy_from_slice(&((50 + 4 * n) as i32).to_be_bytes());
+                    bytes.extend(std::iter::repeat(0u8).take(8 * n as usize));
+                } else if *which == 6 {
                     // 2^k + 1 real entries, header declares 2^24 of them
                     let declared: i64 = 50 + 4 * (1i64 << 24);
                     let entry: Vec<u8> = bytes.get(100..108).map(|x| x.to_vec()).unwrap_or(vec![0, 0, 0, 50, 0, 0, 0, 10]);
